@@ -709,14 +709,18 @@ pub fn check_main(args: &[String]) -> i32 {
         for e in a.harness_errors.iter().filter(|e| !e.is_empty()) {
             eprintln!("HARNESS-ERROR {}", e);
         }
-        eprintln!("{} harness errors: the check is not trustworthy", harness_errors);
-        return 2;
     }
+    // a violation with a replay file stands on its own (the replay reproduces it), whatever else
+    // went wrong in other runs of the batch
     if !violation_lines.is_empty() {
         for l in &violation_lines {
             println!("{}", l);
         }
         return 1;
+    }
+    if harness_errors > 0 {
+        eprintln!("{} harness errors: a clean result of this batch is not trustworthy", harness_errors);
+        return 2;
     }
     println!("OK property={} held on everything explored", prop);
     0
